@@ -196,7 +196,18 @@ def build(config, history, comps, out_len, estimator=None, grid=None, operation=
         if resume is not None:
             eo.limit = len(history)
             eo._table_for = None
-            if resume[1] == "continue":
+            if resume[1] == "save_restore":
+                # persist the stopped instance, continue the RESTORED copy (its own copy of the scripted estimator and of the wrappers)
+                import os
+                path = os.path.join(os.getcwd(), "resume_%d.dill" % os.getpid())
+                sa.save_to_file(path)
+                sa = type(sa).restore_from_file(path)
+                os.remove(path)
+                eo = sa.errorEstimator
+                eo.limit = len(history)
+                r.sa, r.op, r.eo = sa, sa.operation, eo
+                r.result = sa.continue_adaptive_refinement(tol=tol)
+            elif resume[1] == "continue":
                 r.result = sa.continue_adaptive_refinement(tol=tol)
             else:
                 r.result = sa.performSpatiallyAdaptiv(config["lmin"], config["lmax"], eo, tol=tol, print_output=False,
